@@ -114,7 +114,11 @@ func (c *Chan[T]) liveSendWaiter(self *Thread) *sendWaiter[T] {
 func (c *Chan[T]) removeRecv(w *recvWaiter[T]) {
 	for i, x := range c.recvq {
 		if x == w {
-			c.recvq = append(c.recvq[:i], c.recvq[i+1:]...)
+			for j := i; j+1 < len(c.recvq); j++ { // no append/copy: slicecopy carries race hooks
+				c.recvq[j] = c.recvq[j+1]
+			}
+			c.recvq[len(c.recvq)-1] = nil
+			c.recvq = c.recvq[:len(c.recvq)-1]
 			return
 		}
 	}
@@ -124,7 +128,11 @@ func (c *Chan[T]) removeRecv(w *recvWaiter[T]) {
 func (c *Chan[T]) removeSend(w *sendWaiter[T]) {
 	for i, x := range c.sendq {
 		if x == w {
-			c.sendq = append(c.sendq[:i], c.sendq[i+1:]...)
+			for j := i; j+1 < len(c.sendq); j++ {
+				c.sendq[j] = c.sendq[j+1]
+			}
+			c.sendq[len(c.sendq)-1] = nil
+			c.sendq = c.sendq[:len(c.sendq)-1]
 			return
 		}
 	}
